@@ -82,10 +82,33 @@ Eval2(t, m, env, gram, fenv) ==
          cv \in {[c \in 1..Len(t.cons) |-> SVal(t.cons[c], gram, fenv)]},
          lv \in {[l \in 1..Len(t.lmis) |-> LET n == t.lmis[l].n IN
                     [i \in 1..n |-> [j \in 1..n |-> SVal(t.lmis[l].E[(i - 1) * n + j], gram, fenv)]]]}})
-LeafEval(t, m, env) ==
+(* What the public calls returned must be able to carry EVERY real execution on the member:                      *)
+(*  - the value returned with a sample is the member's value at that point (a value shared with another point    *)
+(*    cuts off members whose values differ there);                                                               *)
+(*  - an oracle call whose (sub)gradient is not a new free leaf pins the subgradient: that is only harmless if    *)
+(*    the member has exactly that one (sub)gradient at the point.                                                 *)
+SampleBad(t, m, env, gram, fenv) ==
+  LET E == t.events
+      xv(k) == SPt(E[k].x, env, m.dim, 1)
+      gv(k) == SPt(E[k].g, env, m.dim, 1)
+      ok(k) == ~HasOvf(xv(k)) /\ MDom(m, xv(k))
+      vbad == {k \in 1..Len(E) : ok(k) /\ E[k].own = 1 /\ E[k].hasv = 1 /\ m.k # "lin" /\
+                 LET a == SVal(E[k].v, gram, fenv)  b == MVal(m, xv(k)) IN ~IsOvf(a) /\ ~IsOvf(b) /\ a # b}
+      gbad == {k \in 1..Len(E) : ok(k) /\ E[k].own = 1 /\ E[k].k = "oracle" /\ E[k].fresh = 0 /\ ~HasOvf(gv(k)) /\
+                 \E g \in Range(MGrads(m, xv(k))) : ~HasOvf(g) /\ g # gv(k)}
+  IN {<<"returned-value-is-not-the-value-at-that-point", m.tag, ToString(env)>> : k \in vbad}
+     \cup {<<"oracle-pins-the-subgradient-where-the-member-has-several", m.tag, ToString(env)>> : k \in gbad}
+SampleBadOf(t, m, env) ==
+  The({SampleBad(t, m, env, gram, fenv) :
+         gram \in {[i \in 1..t.NP |-> [j \in 1..t.NP |-> IF i <= j THEN TDot(env[i], env[j]) ELSE Z]]},
+         fenv \in {[k \in 1..t.NE |-> MVal(m, SPt(t.fr[k], env, m.dim, 1))]}})
+LeafEval0(t, m, env) ==
   The({Eval2(t, m, env, gram, fenv) :
          gram \in {[i \in 1..t.NP |-> [j \in 1..t.NP |-> IF i <= j THEN TDot(env[i], env[j]) ELSE Z]]},
          fenv \in {[k \in 1..t.NE |-> MVal(m, SPt(t.fr[k], env, m.dim, 1))]}})
+LeafEval(t, m, env) ==
+  The({[r EXCEPT !.bad = IF sb = {} THEN @ ELSE @ \cup {x \in sb : \A y \in @ : y[1] # x[1] \/ y[2] # x[2]}] :
+         r \in {LeafEval0(t, m, env)}, sb \in {SampleBadOf(t, m, env)}})
 RECURSIVE Walk(_, _, _), Fold(_, _, _, _, _)
 Walk(ctx, k, env) == IF k > ctx.t.NP THEN LeafEval(ctx.t, ctx.m, env)
                      ELSE The({Fold(ctx, k, env, ch, 1) : ch \in {Choices(ctx, k, env)}})
